@@ -40,7 +40,9 @@ fn check_schedule(w: &mut World, st: &Step) -> Result<(), Violation> {
                 Some(s) => s,
                 None => continue,
             };
-            let ref_min: u32 = snap.peers.iter().map(|p| p.peer_timeout as u32).min().unwrap_or(300);
+            // what the current peers advertise: the configuration of the incarnation each entry stands for (a stale
+            // entry of a dead incarnation counts with what that incarnation advertised)
+            let ref_min: u32 = snap.peers.iter().map(|p| w.advertised_timeout.get(&p.node_id).map(|t| *t as u32).unwrap_or(p.peer_timeout as u32)).min().unwrap_or(300);
             w.count("c15_schedule_checked");
             if !snap.peers.is_empty() {
                 w.count("c15_schedule_checked_with_peers");
@@ -160,6 +162,99 @@ fn hetero(w: &mut World, ctx: &RunCtx, states: &mut Vec<u64>) -> Result<(), Viol
     if check_b && !pairs.iter().all(|(a, b)| w.is_connected(*a, *b)) {
         return Err(Violation::new("no-spurious-timeout", "mesh-not-connected-at-end", "stable mesh lost a connection without any fault".to_string()));
     }
+    // ---- a node comes back with a different timeout while its peers still hold its old entry: the mesh settles
+    // again and the same two clauses hold for the new set of advertised timeouts
+    if !connected || tmin < 3 || !w.ch.chance("restart_with_other_timeout", 400) {
+        return Ok(());
+    }
+    // the last node dials everybody else itself; any other node is only known again to the higher-numbered ones
+    // after they timed its old entry out, which is affordable with small timeouts only
+    let x = if tmax <= 600 && w.ch.chance("restart_any_node", 500) { w.ch.choose("restart_who", n as u32) as usize } else { n - 1 };
+    let new_t = *w.ch.pick("new_timeout", &[30u32, 60, 59, 119, 300, 120, 10, 3]);
+    let graceful = w.ch.chance("restart_graceful", 300);
+    if graceful {
+        if let Some(st) = w.stop_node(x) {
+            guard(w, &st)?;
+        }
+    } else {
+        w.crash_node(x);
+    }
+    let pause = w.ch.choose("restart_pause_ms", 3_000) as u64;
+    let until = w.now_ms + pause;
+    w.run_until(until, |w, st| {
+        guard(w, st)?;
+        check_schedule(w, st)
+    })?;
+    w.nodes[x].cfg.peer_timeout = new_t;
+    w.count("c15_restarts_with_other_timeout");
+    let st = w.start_node(x);
+    guard(w, &st)?;
+    check_schedule(w, &st)?;
+    let tmax2 = (0..n).map(|i| w.nodes[i].cfg.peer_timeout).max().unwrap_or(300);
+    // The mesh has settled again when every pair is connected, no handshake is pending or lingering, nothing was
+    // added or removed for 5 s, and every node has scheduled an announcement since it last added a peer (an
+    // announcement scheduled before a peer with a smaller timeout joined may come too late for that peer; the
+    // flapping and the handshake repeat storms that follow are not what this clause is about). The scheduling clause
+    // itself is checked all the way through.
+    let deadline = w.now_ms + (tmax2.min(1200) as u64 + 400) * 1000;
+    let mut last_added = vec![w.now_ms; n];
+    let mut last_sched = vec![0u64; n];
+    let mut last_change = w.now_ms;
+    let mut settled = false;
+    while w.now_ms < deadline {
+        let until = (w.now_ms + 1000).min(deadline);
+        while let Some(st) = w.step(until) {
+            guard(w, &st)?;
+            check_schedule(w, &st)?;
+            if let Some(i) = st.node {
+                for ev in &st.probes {
+                    match ev {
+                        Event::PeerAdded { .. } => {
+                            last_added[i] = w.now_ms;
+                            last_change = w.now_ms;
+                        }
+                        Event::PeerRemoved { .. } => last_change = w.now_ms,
+                        Event::NodeInfoScheduled { .. } => last_sched[i] = w.now_ms,
+                        _ => {}
+                    }
+                }
+            }
+        }
+        let quiet = (0..n).all(|i| match w.snapshot(i) {
+            Some(s) => s.pending.is_empty() && s.peers.iter().all(|p| p.init_stage.is_none()),
+            None => false,
+        });
+        if quiet && last_change + 5_000 <= w.now_ms && (0..n).all(|i| last_sched[i] > last_added[i]) && pairs.iter().all(|(a, b)| w.is_connected(*a, *b)) {
+            settled = true;
+            break;
+        }
+    }
+    if !settled {
+        w.count("c15_mesh_not_settled_after_restart");
+        return Ok(());
+    }
+    let span = 3 * tmax2.min(1200) as u64 + 30;
+    let until = w.now_ms + span * 1000;
+    w.count("c15_no_spurious_timeout_checked_after_restart");
+    w.run_until(until, |w, st| {
+        guard(w, st)?;
+        check_schedule(w, st)?;
+        for ev in &st.probes {
+            if let Event::PeerRemoved { addr, reason } = ev {
+                if *reason == "timeout" {
+                    let who = w.node_by_addr(*addr).unwrap_or(99);
+                    let me = st.node.unwrap_or(99);
+                    return Err(Violation::new(
+                        "no-spurious-timeout",
+                        "healthy-peer-timed-out",
+                        format!("n{} (timeout {} s) timed out healthy peer n{} in a mesh that had settled again after n{} came back with timeout {} s", me, w.nodes[me.min(w.nodes.len() - 1)].cfg.peer_timeout, who, x, new_t),
+                    ));
+                }
+            }
+        }
+        Ok(())
+    })?;
+    states.push(mesh::abstract_state(w));
     Ok(())
 }
 
